@@ -267,10 +267,12 @@ impl Rollback {
 
         // NOTE: for now, if there is a pending truncate, we ignore everything else.
         if let Some(pending_truncate) = pending_truncate {
-            if pending_truncate < seglog.live_range().0 .0 {
+            if pending_truncate < seglog.live_range().0 .0 || in_memory.total_len() == 0 {
                 // Everything that was still live has been rolled back. The record preceding the
                 // live range may have been pruned already, so the log becomes empty rather than
-                // ending at that record.
+                // ending at that record. (After a reopen the start of the live range as read from
+                // the manifest lags the pruned start by one record, hence the second test: no
+                // retained delta is left.)
                 return WriteoutData {
                     rollback_start_live: 0,
                     rollback_end_live: 0,
